@@ -27,6 +27,237 @@ def desc_sorted(e, name):
     return t in ('sorted(%s)[::-1]' % name, 'sorted(%s,reverse=True)' % name, 'reversed(sorted(%s))' % name, 'list(reversed(sorted(%s)))' % name)
 
 
+def scramble_by_value(rep, prog, m, sc, rel):
+    """scramble_pop_ids by the stores it makes (abstract execution for 1-3 populations, folded and not; one symbolic entry per loop, the
+    iterables of a loop indexed by one common position): the pooled spectrum receives entry k of the flattened spectrum at the total
+    derived count of entry k; the result receives, at the counts of entry k, exp(sum_a lnC(n_a, d_a) - lnC(N, D)) times the pooled value
+    at D; a folded input is unfolded first and the result folded.  How the loops are written (zip, enumerate, indices), which of ravel /
+    flatten / flat / reshape(-1) is used and how the log-weight is accumulated do not matter."""
+    from sa import miniexec as mx
+    from sa import alpha as _alpha
+    known_ = _alpha.load_table().get('__params__', {}).get(m.rel)
+    known_ = set(known_) if known_ is not None else None
+    bad = {'pool': [], 'weight': [], 'deal': [], 'fold': []}
+    unrec = []
+
+    def flat_of(v):
+        """X when v is a flattened view of X (X.ravel(), numpy.ravel(X), X.flatten(), X.flat, X.reshape(-1))"""
+        if not isinstance(v, mx.Sym) or not v.struct:
+            return None
+        for nm in ('ravel', 'flatten'):
+            r = mx.method_call(v, nm)
+            if r is not None and mx.show(r) not in ('numpy', 'np') and not v.struct[2]:
+                return r
+            c = mx.call_of(v, nm)
+            if c is not None and v.struct[1].split('.')[0] in ('numpy', 'np') and len(c[0]) == 1:
+                return c[0][0]
+        if v.struct[0] == 'attr' and v.struct[2] == 'flat':
+            return v.struct[1]
+        r = mx.method_call(v, 'reshape')
+        if r is not None and list(v.struct[2]) in ([-1], [(-1,)]):
+            return r
+        return None
+
+    def rows_of(v, S, P):
+        """X when v is X.reshape(number of entries, P)"""
+        r = mx.method_call(v, 'reshape') if isinstance(v, mx.Sym) else None
+        if r is None:
+            return None
+        a = v.struct[2]
+        a = a[0] if len(a) == 1 and isinstance(a[0], (tuple, list)) else a
+        if len(a) != 2:
+            return None
+        n_txt = mx.show(a[0]).replace(' ', '')
+        ok_n = a[0] == -1 or n_txt in ('numpy.prod(%s.shape)' % S, 'np.prod(%s.shape)' % S, '%s.size' % S, 'len(%s.ravel())' % S)
+        ok_p = a[1] == P or a[1] == -1 and a[0] != -1 or mx.show(a[1]) in ('%s.ndim' % S, 'len(%s.shape)' % S, '%s.Npop' % S)
+        return r if ok_n and ok_p else None
+
+    def total_form(v, S):
+        """v is the total sample size sum(S.sample_sizes)"""
+        t = mx.show(v).replace(' ', '')
+        return t in ('numpy.sum(%s.sample_sizes)' % S, 'np.sum(%s.sample_sizes)' % S, '%s.sample_sizes.sum()' % S, 'sum(%s.sample_sizes)' % S)
+    n_runs = 0
+    for P in (1, 2, 3):
+        for folded in (False, True):
+            tag = '%d population%s%s' % (P, 's' if P > 1 else '', ', folded' if folded else '')
+
+            def attr_hook(base, attr):
+                return NotImplemented
+            it = mx.Interp(prog, m, symbolic_loops=True, known_functions=known_)
+            it.array_rows = True
+            attrs = {'folded': folded, 'Npop': P, 'ndim': P, 'sample_sizes': mx.Sym('self.sample_sizes', length=P), 'shape': mx.Sym('self.shape', length=P)}
+            selfv = mx.Sym('self', truth=True, attrs=attrs)
+
+            def hook(nm, args, kwargs, P=P):
+                if nm == 'self.unfold' and not args:
+                    return mx.Sym('self.unfold()', truth=True, attrs={'folded': False, 'Npop': P, 'ndim': P, 'sample_sizes': mx.Sym('self.unfold().sample_sizes', length=P),
+                                                                    'shape': mx.Sym('self.unfold().shape', length=P)})
+                return NotImplemented
+            it.call_hook = hook
+            try:
+                paths = it.run(sc, {'self': selfv, 'mask_corners': mx.Sym('mask_corners')})
+            except mx.Undecidable as e:
+                unrec.append('%s: %s' % (tag, e))
+                continue
+            paths = [p_ for p_ in paths if p_[0][0] == 'return']
+            if len(paths) != 1:
+                unrec.append('%s: %d returning paths' % (tag, len(paths)))
+                continue
+            n_runs += 1
+            outcome, events, _dec = paths[0]
+            S = 'self.unfold()' if folded else 'self'
+            incs = [e for e in events if e[0] == 'augitem' and e[3] == 'Add']
+            if len(incs) == 1:
+                # the result is set, not accumulated: every entry must be set.  Recognised incomplete form: a loop over range(n // 2) that
+                # sets entry i and its mirror image n - 1 - i and nothing else - the middle entry of an odd number of entries is never set
+                half = [e for e in events if e[0] == 'loop' and isinstance(e[3], mx.Sym) and mx.call_of(e[3], 'range') is not None and len(mx.call_of(e[3], 'range')[0]) == 1 and
+                        isinstance(mx.call_of(e[3], 'range')[0][0], mx.Sym) and (mx.call_of(e[3], 'range')[0][0].struct or (None,))[0] == 'binop' and mx.call_of(e[3], 'range')[0][0].struct[1] == '//' and
+                        mx.call_of(e[3], 'range')[0][0].struct[3] == 2]
+                sets = [e for e in events if e[0] == 'setitem' and mx.call_of(e[4], 'zeros') is not None and e[4] is not incs[0][1]]
+                if half and len(sets) == 2:
+                    n_txt = mx.show(mx.call_of(half[0][3], 'range')[0][0].struct[2])
+                    keys = sorted(mx.show(e[2]).replace(' ', '') for e in sets)
+                    lv = half[0][2]
+                    if lv in keys and any(k_ in ('((%s-1)-%s)' % (n_txt, lv), '(%s-(1+%s))' % (n_txt, lv), '(%s-(%s+1))' % (n_txt, lv), '((%s-%s)-1)' % (n_txt, lv)) for k_ in keys):
+                        bad['deal'].append('%s: entries i and %s - 1 - i are set for i < %s // 2 only: the middle entry of an odd number of entries is never set' % (tag, n_txt, n_txt))
+                        continue
+            if len(incs) != 2:
+                unrec.append('%s: %d accumulating stores' % (tag, len(incs)))
+                continue
+            pool, deal = incs
+            # ---- pooling
+            B1 = pool[1]
+            z = mx.call_of(B1, 'zeros')
+            size_ok = z is not None and z[0] and isinstance(z[0][0], mx.Sym) and z[0][0].struct and z[0][0].struct[0] == 'binop' and z[0][0].struct[1] == '+' and \
+                ((total_form(z[0][0].struct[2], S) and z[0][0].struct[3] == 1) or (total_form(z[0][0].struct[3], S) and z[0][0].struct[2] == 1))
+            if not size_ok:
+                bad['pool'].append('%s: pooled spectrum is %s' % (tag, mx.show(B1)[:60]))
+
+            def flat_elem(v):
+                if isinstance(v, mx.Sym) and v.struct and v.struct[0] == 'index' and isinstance(v.struct[2], mx.Sym) and v.struct[2].struct is None:
+                    b = v.struct[1]
+                    x = flat_of(b)
+                    if x is not None:
+                        return mx.show(x), v.struct[2].text
+                    # a slice of the flattened array: only part of the entries
+                    if isinstance(b, mx.Sym) and b.struct and b.struct[0] == 'index' and isinstance(b.struct[2], slice) and flat_of(b.struct[1]) is not None:
+                        sl = b.struct[2]
+                        if not (sl.start in (None, 0) and sl.stop is None and sl.step in (None, 1)):
+                            return mx.show(flat_of(b.struct[1])), '%s restricted to [%s:%s]' % (v.struct[2].text, '' if sl.start is None else mx.show(sl.start), '' if sl.stop is None else mx.show(sl.stop))
+                        return mx.show(flat_of(b.struct[1])), v.struct[2].text
+                return None
+            k1, v1 = flat_elem(pool[2]), flat_elem(pool[4])
+            if k1 is None or v1 is None:
+                unrec.append('%s: pooling store %s += %s' % (tag, mx.show(pool[2])[:40], mx.show(pool[4])[:40]))
+                continue
+            if 'restricted' in k1[1] or 'restricted' in v1[1]:
+                bad['pool'].append('%s: only part of the entries is pooled (%s)' % (tag, k1[1] if 'restricted' in k1[1] else v1[1]))
+            elif not (k1[0] == '%s._total_per_entry()' % S and v1[0] == S and k1[1] == v1[1]):
+                bad['pool'].append('%s: pooled[%s of entry %s] += %s of entry %s' % (tag, k1[0], k1[1], v1[0], v1[1]))
+            # ---- re-dealing
+            B2 = deal[1]
+            z2 = mx.call_of(B2, 'zeros')
+            if not (z2 is not None and z2[0] and mx.show(z2[0][0]) == '%s.shape' % S):
+                bad['deal'].append('%s: result starts as %s' % (tag, mx.show(B2)[:50]))
+            key = deal[2]
+            tk = mx.call_of(key, 'tuple') if isinstance(key, mx.Sym) else None
+            row = tk[0][0] if tk is not None and len(tk[0]) == 1 else key
+            rowinfo = None
+            if isinstance(row, mx.Sym) and row.struct and row.struct[0] == 'index' and isinstance(row.struct[2], mx.Sym) and row.struct[2].struct is None:
+                x = rows_of(row.struct[1], S, P)
+                if x is not None:
+                    rowinfo = (mx.show(x), row.struct[2].text)
+            elif isinstance(row, (tuple, list)) and len(row) == P:
+                # the counts spelled out one by one
+                parts = []
+                for a_, c_ in enumerate(row):
+                    if isinstance(c_, mx.Sym) and c_.struct and c_.struct[0] == 'index' and c_.struct[2] == a_ and isinstance(c_.struct[1], mx.Sym) and c_.struct[1].struct and c_.struct[1].struct[0] == 'index':
+                        x = rows_of(c_.struct[1].struct[1], S, P)
+                        parts.append((mx.show(x), mx.show(c_.struct[1].struct[2])) if x is not None else None)
+                    else:
+                        parts.append(None)
+                if all(p_ is not None for p_ in parts) and len(set(parts)) == 1:
+                    rowinfo = parts[0]
+            if rowinfo is None:
+                unrec.append('%s: result indexed by %s' % (tag, mx.show(key)[:60]))
+                continue
+            if rowinfo[0] != '%s._counts_per_entry()' % S:
+                bad['deal'].append('%s: result indexed by the rows of %s' % (tag, rowinfo[0]))
+            kk = rowinfo[1]
+            row_txt = mx.show(row if not isinstance(row, (tuple, list)) else row[0].struct[1])
+            fac = mx.factors(deal[4], '*')
+            pooled_reads = [f for f in fac if isinstance(f, mx.Sym) and f.struct and f.struct[0] == 'index' and f.struct[1] is B1]
+            weights = [f for f in fac if not any(f is q for q in pooled_reads)]
+            if len(pooled_reads) != 1 or len(weights) != 1:
+                unrec.append('%s: value added is %s' % (tag, mx.show(deal[4])[:70]))
+                continue
+            pk = flat_elem(pooled_reads[0].struct[2])
+            if pk is None or not (pk[0] == '%s._total_per_entry()' % S and pk[1] == kk):
+                bad['deal'].append('%s: entry %s receives the pooled value at %s' % (tag, kk, mx.show(pooled_reads[0].struct[2])[:50]))
+            w = weights[0]
+            ex = mx.call_of(w, 'exp') if isinstance(w, mx.Sym) else None
+            if ex is None or len(ex[0]) != 1:
+                unrec.append('%s: weight %s' % (tag, mx.show(w)[:60]))
+                continue
+
+            def canon_arg(v):
+                if total_form(v, S):
+                    return 'N'
+                t = mx.show(v)
+                mm = re.fullmatch(re.escape(S) + r'\.sample_sizes\[(\d+)\]', t)
+                if mm:
+                    return 'n%s' % mm.group(1)
+                fe = flat_elem(v)
+                if fe is not None and fe[0] == '%s._total_per_entry()' % S and fe[1] == kk:
+                    return 'D'
+                if isinstance(v, mx.Sym) and v.struct and v.struct[0] == 'index' and isinstance(v.struct[2], int) and mx.show(v.struct[1]) == row_txt:
+                    return 'd%d' % v.struct[2]
+                return '?%s' % t[:40]
+
+            def leaf(v):
+                c = mx.call_of(v, '_lncomb') if isinstance(v, mx.Sym) else None
+                if c is not None and len(c[0]) == 2 and not c[1]:
+                    return Rat.atom('lnC[%s,%s]' % (canon_arg(c[0][0]), canon_arg(c[0][1])))
+                sm = mx.call_of(v, 'sum') if isinstance(v, mx.Sym) else None
+                if sm is not None and sm[0] and isinstance(sm[0][0], (list, tuple)):
+                    tot = Rat.const(0) if len(sm[0]) == 1 else mx.to_rat(sm[0][1], leaf)
+                    for x in sm[0][0]:
+                        tot = tot + mx.to_rat(x, leaf)
+                    return tot
+                return None
+            try:
+                E = mx.to_rat(ex[0][0], leaf)
+            except AlgebraError as e_:
+                unrec.append('%s: log-weight: %s' % (tag, e_))
+                continue
+            ref = Rat.const(0) - Rat.atom('lnC[N,D]')
+            for a_ in range(P):
+                ref = ref + Rat.atom('lnC[n%d,d%d]' % (a_, a_))
+            if not E.equals(ref):
+                bad['weight'].append('%s: ln weight = %s' % (tag, E.canon()[:120]))
+            # ---- result and folding
+            res = outcome[1]
+            inner = mx.method_call(res, 'fold') if isinstance(res, mx.Sym) else None
+            core = inner if inner is not None else res
+            ctor = mx.call_of(core, 'Spectrum') if isinstance(core, mx.Sym) else None
+            if ctor is None or not ctor[0] or ctor[0][0] is not B2:
+                if not (core is B2):
+                    bad['deal'].append('%s: returns %s' % (tag, mx.show(res)[:60]))
+            if folded != (inner is not None):
+                bad['fold'].append('%s: the result is %s' % (tag, 'folded' if inner is not None else 'not folded'))
+    def ob(rule, construct, key, holds, what, line):
+        if bad[key]:
+            rep.ob(rule, construct, False, '; '.join(bad[key])[:400], rel, line, what=what)
+        elif unrec:
+            rep.ob(rule, construct, False, 'not recognised: ' + '; '.join(unrec)[:300], rel, line, what=what)
+        else:
+            rep.ob(rule, construct, True, holds + ' (%d worlds executed abstractly)' % n_runs, rel, line, what=what)
+    ob('R-IDX', 'scramble_pop_ids pooling', 'pool', 'pooled 1-D spectrum of N+1 cells receives every entry at its total derived count', 'pooling by allele total', sc.lineno)
+    ob('R-ALG', 'scramble_pop_ids weight', 'weight', 'ln prob = sum_a lnC(n_a, d_a) - lnC(N, D)', 'multivariate hypergeometric re-dealing weight', sc.lineno)
+    ob('R-IDX', 'scramble_pop_ids re-deal', 'deal', 'every entry receives weight * pooled[total]', 'entry (d_1..d_P) gets prob * pooled[d_1+..+d_P]', sc.lineno)
+    ob('R-TPL', 'scramble_pop_ids folding', 'fold', 'folded input: unfold, scramble, fold', 'folded spectra handled as fold(scramble(unfold))', sc.lineno)
+
+
 def check_scramble(rep, sc, rel):
     """scramble_pop_ids: pool by allele total, re-deal with multivariate hypergeometric weights, fold(scramble(unfold)).
     Expressions are compared after resolving local names through their (single, or loop-local sequential) assignments and
@@ -179,7 +410,9 @@ def check_combine_two(rep, prog, m, c2, rel):
                         return mx.Sym('ndindex(%s)' % ', '.join(mx.show(x) for x in args), attrs={'__item_length__': D})
                     return NotImplemented
                 it = mx.Interp(prog, m, call_hook=hook, known_functions=known_, symbolic_loops=True)
-                selfv = mx.Sym('self', truth=True, attrs={'Npop': D, 'ndim': D, 'sample_sizes': mx.Sym('self.sample_sizes', length=D), 'pop_ids': mx.Sym('self.pop_ids', length=D),
+                # labels are concrete strings: however the merged label is spelled ('{0}+{1}'.format, f-string, %, +) it is a string
+                LABS = ['pA', 'pB', 'pC', 'pD', 'pE'][:D]
+                selfv = mx.Sym('self', truth=True, attrs={'Npop': D, 'ndim': D, 'sample_sizes': mx.Sym('self.sample_sizes', length=D), 'pop_ids': list(LABS),
                                                           'shape': mx.Sym('self.shape', length=D)})
                 try:
                     paths = [p_ for p_ in it.run(c2, {'self': selfv, 'tocombine': [a1, b1]}) if p_[0][0] == 'return']
@@ -212,7 +445,8 @@ def check_combine_two(rep, prog, m, c2, rel):
                                 texts.append('+'.join(mx.show(y) for y in st_[2][1:]))
                             else:
                                 texts.append(mx.show(x))
-                        want = [('self.pop_ids[%d]+self.pop_ids[%d]' % (lo, hi) if k == lo else 'self.pop_ids[%d]' % k) for k in range(D) if k != hi]
+                        want = [('%s+%s' % (LABS[lo], LABS[hi]) if k == lo else LABS[k]) for k in range(D) if k != hi]
+                        texts = [t_.strip("'") for t_ in texts]
                         if texts != want:
                             bad['labels'].append('%s: labels %s' % (tagc, texts))
                     elif labs is not None and not (isinstance(labs, mx.Sym) and False):
@@ -626,7 +860,7 @@ def run(rep, prog, tier):
     # ---- Misc.combine_pops -------------------------------------------------------------------------------------------------------
     if check_misc_combine(rep, prog):
         sc = prog.func(SM, 'Spectrum.scramble_pop_ids')
-        check_scramble(rep, sc, rel)
+        scramble_by_value(rep, prog, m, sc, rel)
         rep.floor('R-IDX', 15)
         return
     mm = prog.mod('dadi.Misc')
@@ -701,5 +935,5 @@ def run(rep, prog, tier):
         raise AnalysisError('expected 4 accumulation sites in Misc.combine_pops, found %d' % nb)
     # ---- scramble_pop_ids -------------------------------------------------------------------------------------------------------------
     sc = prog.func(SM, 'Spectrum.scramble_pop_ids')
-    check_scramble(rep, sc, rel)
+    scramble_by_value(rep, prog, m, sc, rel)
     rep.floor('R-IDX', 15)
